@@ -246,8 +246,8 @@ func (idx *timeSeriesIndex) Load(
 	defer idx.lock.RUnlock()
 
 	highContainerIdx := idx.ids.Keys().GetContainerIndex(seriesIDHighKey)
-	if highContainerIdx == -1 {
-		// not found
+	if highContainerIdx < 0 {
+		// not found(-(insertion point + 1), is -2, -3... when holds the containers below the high key)
 		return
 	}
 	lowContainer := idx.ids.Keys().GetContainerAtIndex(highContainerIdx)
